@@ -10,7 +10,7 @@
    leaves of a tree. *)
 From Coq Require Import List NArith Bool Lia.
 Import ListNotations.
-Require Import Regex RegexFacts Tok TokFacts TokTiles TokShape TokPos Engine ParseKeeps Lines Tables Grammars Model.
+Require Import Regex RegexFacts Tok TokFacts TokTiles TokShape TokPos Engine ParseKeeps Lines EndPos Tables Grammars Model.
 Require C09 C01.
 Open Scope N_scope.
 
@@ -71,4 +71,12 @@ Example C03_example :
   match parse_text 310 Recover 0 [65279;105;102;32;120;58;10;32;32;121;32;61;32;102;34;34;34;97;10;98;123;99;125;34;34;34;10;32;32;122;61;39;113;92;10;114;39;10] with
   | OTree t => (10 <=? N.of_nat (length (text_leaves t))) = true
   | _ => False end.
+Proof. vm_compute. reflexivity. Qed.
+
+(* end positions: Leaf.end_pos (computed from the value with split_lines) is the position reached by walking the value from
+   the start position, counting exactly \n, \r\n and \r as line breaks *)
+Theorem C03_end_pos_is_walk : forall value line col, end_pos value line col = walk value line col false.
+Proof. exact end_pos_is_walk. Qed.
+Print Assumptions C03_end_pos_is_walk.
+Example C03_end_pos_example : end_pos [39;39;39;97;13;10;98;13;99;10;39;39;39] 3 4 = (6, 3).
 Proof. vm_compute. reflexivity. Qed.
